@@ -16,8 +16,15 @@ on the real API measures which policy the tree implements.  execute_stack_neutra
 for the other policies the `..._refuted` theorems are the witnesses and the probe history, which shows
 the same on the real code, is reported as a violation.
 
-PARTIAL: compile determinism / isolation lives in C globals of the flex/bison runtime and back/utils.c
-that no Gallina model expresses — correspondence only (oracles 1, 4, 5 below).
+Process-global state (coq/VM/ApiGlobal.v, Properties_C15b.v): the IEEE status word and the scanner's pending string
+buffer are threaded through histories of compiles, calls and host arithmetic; process_history_as_in_fresh_process holds
+under `reinitialises` (every tested flag is cleared first, the opening quote always starts a new buffer), which
+process_reinit_necessary shows to be necessary.  measure_reinit_policy() reads both policies from the tree's sources;
+the residue family checks the hypothesis on the real code (host `fpraise` of each flag, float effects at run time and
+in constant folding, compiles ending in every scanner situation, then observers vs a fresh process).
+
+PARTIAL: the rest of compile determinism / isolation lives in C globals of the flex/bison runtime and back/utils.c
+(start condition, use stack, line_no, file name) that no Gallina model expresses — correspondence only (oracles 1, 4, 5).
 
 Tie / search: harness/api/apidrive.c (ASan/UBSan build of the tree, hook H1 for the peak sp) interprets
 API histories over a pool of sources (corpus/C15/pool: valid programs with several entry points and
@@ -363,6 +370,7 @@ INVALID += [nm for nm, _ in TRUNCATED]
 # histories.  A step is a list:
 #   ["compile", h, "str"|"file", src]   ["vm_new", v, mem, stack]   ["prepare", h, entry, [args]]
 #   ["execute", h, v]                   ["pdel", h]                 ["vdel", v]
+#   ["fpraise", "flag,flag"]  ["fpclear"]   float arithmetic of the HOST application between API calls (no libnev call)
 # ------------------------------------------------------------------------------------------
 def step_line(st):
     k = st[0]
@@ -378,6 +386,10 @@ def step_line(st):
         return "program_delete %d" % st[1]
     if k == "vdel":
         return "vm_delete %d" % st[1]
+    if k == "fpraise":
+        return "fpraise %s" % st[1]
+    if k == "fpclear":
+        return "fpclear"
     raise ValueError(st)
 
 
@@ -407,6 +419,8 @@ class Sim(object):
             return st[1] in self.prog
         if k == "vdel":
             return st[1] in self.vm
+        if k in ("fpraise", "fpclear"):
+            return True
         return False
 
     def apply(self, st):
@@ -595,6 +609,8 @@ def residue_ops(rng=None):
         ops.append(("compile", c, "str"))
         ops.append(("compile", c, "file"))
         ops.append(("run", c, sorted(x for x in VALID[c]["entries"] if x != "main")[0], ()))
+    for fl in FP_FLAGS + ["inexact,underflow", "overflow,inexact", "divbyzero,invalid,overflow,underflow,inexact"]:
+        ops.append(("host", fl))                                 # the embedding application's own arithmetic
     ops.append(("run", "fpb", "root", ("f:-1.0",)))          # a built-in that legitimately raises `invalid`
     ops.append(("run", "faults", "divi", ("i:0",)))
     ops.append(("run", "faults", "chk", ("i:0",)))
@@ -613,6 +629,9 @@ def residue_ops(rng=None):
     return ops
 
 
+FP_FLAGS = ["inexact", "underflow", "overflow", "invalid", "divbyzero"]
+
+
 def usable_mode(mode, src):
     if (mode, src) not in CRASHING:
         return mode
@@ -629,6 +648,8 @@ def _free(used, lo=1):
 
 def instantiate_residue(op, sim, rng=None):
     """steps of one residue operation on handles that are free in sim"""
+    if op[0] == "host":
+        return [["fpraise", op[1]]]
     if op[0] == "compile":
         mode = usable_mode(op[2], op[1])
         return [["compile", _free(sim.prog), mode, op[1]]] if mode else []
@@ -699,7 +720,7 @@ def residue_histories(rng, limit=None):
             for st in [["vdel", v] for v in sorted(s.vm) if v != 0] + [["pdel", h] for h in sorted(s.prog) if h != 0]:
                 s.apply(st)
                 hist.append(st)
-        for st in observers(s, rng, 9 if op[0] == "run" else 7, rot=k):
+        for st in observers(s, rng, 9 if op[0] in ("run", "host") else 7, rot=k):
             if s.ok(st):
                 s.apply(st)
                 hist.append(st)
@@ -1510,6 +1531,37 @@ def private_copy(src, dst, probe_input, lock):
     raise OSError("cannot obtain a working copy of %s: %s" % (src, last))
 
 
+def measure_reinit_policy(repo):
+    """the two policies of coq/VM/ApiGlobal.v as the tree's sources state them: the masks of feclearexcept / fetestexcept in
+    libvm_execute_build_in (back/libvm.c) and whether the opening-quote rule of front/scanner.l allocates unconditionally"""
+    allf = {"divbyzero", "invalid", "overflow", "underflow", "inexact"}
+
+    def flagset(text):
+        if "FE_ALL_EXCEPT" in text:
+            return set(allf)
+        return {f for f in allf if "FE_" + f.upper() in text}
+    out = {}
+    try:
+        src = open(os.path.join(repo, "back", "libvm.c")).read()
+        m = re.search(r"libvm_execute_build_in\s*\(.*?feclearexcept\s*\(([^)]*)\)", src, re.S)
+        m2 = re.search(r"fetestexcept\s*\(([^)]*)\)", src[m.end():]) if m else None
+        if m and m2:
+            out["cleared"], out["tested"] = sorted(flagset(m.group(1))), sorted(flagset(m2.group(1)))
+            out["tested_subset_of_cleared"] = set(out["tested"]) <= set(out["cleared"])
+    except OSError:
+        pass
+    try:
+        lex = open(os.path.join(repo, "front", "scanner.l")).read()
+        m = re.search(r'^\\"\s*\{(.*?)^\}', lex, re.S | re.M)
+        if m:
+            body = m.group(1)
+            out["opening_quote_rule"] = " ".join(body.split())[:160]
+            out["alloc_always"] = "string_new" in body and re.search(r"\bif\s*\(", body) is None
+    except OSError:
+        pass
+    return out
+
+
 def runner_is_current():
     if not os.path.exists(RUN_BUILT):
         return False
@@ -1573,6 +1625,16 @@ def run(ctx):
         "execute_stack_neutral_partial; execute_stack_neutral_after_error_refuted applies" if policy[0] else
         "execute_stack_neutral_refuted / no_pop_leaks_one_slot_per_call / pinned_policy_dies_at_call_162 apply")
     env = Env(drv, workdir, policy)
+
+    # ---- tie of Properties_C15b.v: does every operation re-initialise the process-global state it reads? ----------
+    rp = measure_reinit_policy(common.REPO)
+    ctx.coverage["process_state_policy_measured(VM/ApiGlobal.v)"] = rp
+    if rp.get("tested_subset_of_cleared") is None or rp.get("alloc_always") is None:
+        ctx.correspondence_broken("process-state-policy-not-measurable", rp)
+    elif not (rp["tested_subset_of_cleared"] and rp["alloc_always"]):
+        ctx.correspondence_broken("process-state-reinit-hypothesis(Properties_C15b.process_history_as_in_fresh_process)",
+                                  {"measured": rp, "meaning": "the tree does not satisfy `reinitialises`: by process_reinit_necessary a "
+                                   "history exists whose last operation differs from a fresh process; the residue family searches for it"})
 
     # the 300-call reproduction: real API vs extracted model
     rr, ex = repeat_probe(drv, workdir)
@@ -1639,7 +1701,9 @@ def run(ctx):
         tcls = dict(TRUNCATED)
         by = {}
         for op in rops:
-            if op[0] == "run":
+            if op[0] == "host":
+                k = "host-raises:" + op[1]
+            elif op[0] == "run":
                 k = "run-time:%s.%s" % (op[1], op[2])
             elif op[1].startswith("T."):
                 k = "input-ends-in:" + (tcls.get(op[1]) or scan_classes(pool_text(op[1].split(".")[1]))[int(op[1].split(".")[2])])
